@@ -164,12 +164,12 @@ package ice
 //@   ensures[C18] p.normBits1Hit == 0 && p.postings == nil ==> bset(receiver) == old(bset(receiver))
 //@
 //@ func (*PostingsList).Count
-//@   safety[C05,C08] nil
-//@   requires[C05,C08] p != nil
-//@   ensures[C05,C08] p.normBits1Hit != 0 ==> result0 == 1 - ite(p.except != nil && select(bset(p.except), p.docNum1Hit), 1, 0)
-//@   ensures[C05,C08] p.normBits1Hit == 0 && p.postings != nil && p.except == nil ==> result0 == card(bset(p.postings))
-//@   ensures[C05,C08] p.normBits1Hit == 0 && p.postings != nil && p.except != nil ==> result0 == card(setdiff(bset(p.postings), bset(p.except)))
-//@   ensures[C05,C08] p.normBits1Hit == 0 && p.postings == nil ==> result0 == 0
+//@   safety[C05,C08,C13] nil
+//@   requires[C05,C08,C13] p != nil
+//@   ensures[C05,C08,C13] p.normBits1Hit != 0 ==> result0 == 1 - ite(p.except != nil && select(bset(p.except), p.docNum1Hit), 1, 0)
+//@   ensures[C05,C08,C13] p.normBits1Hit == 0 && p.postings != nil && p.except == nil ==> result0 == card(bset(p.postings))
+//@   ensures[C05,C08,C13] p.normBits1Hit == 0 && p.postings != nil && p.except != nil ==> result0 == card(setdiff(bset(p.postings), bset(p.except)))
+//@   ensures[C05,C08,C13] p.normBits1Hit == 0 && p.postings == nil ==> result0 == 0
 //@
 //@ func (*Segment).DocsMatchingTerms
 //@   safety[C18] nil idx
@@ -474,7 +474,7 @@ package ice
 //@ // zstd wrappers: DecodeAll appends the decoded frame to dst[:0]; the result's capacity
 //@ // beyond its length is unspecified (klauspost allocates only what it needs)
 //@ func ZSTDDecompress
-//@   trusted
+//@   // verified against the contract of the library's DecodeAll (prelude): the trust sits at the library boundary
 //@   modifies allocTop, dst[*], decoder
 //@   ensures result1 == nil ==> len(result0) == unzlen(contents(src), off(src), len(src)) && len(result0) <= cap(result0)
 //@   ensures result1 == nil ==> seqeq(contents(result0), off(result0), unz(contents(src), off(src), len(src)), 0, len(result0))
@@ -1941,3 +1941,54 @@ package ice
 //@ // retained-as-capacity by reset() (see its contract), lastNumDocs/lastOutSize only size a buffer.
 //@ // A new field is new state that survives from one build to the next through the pool ----
 //@ structfields[C14] interim results chunkMode w FieldsMap FieldsInv FieldDocs FieldFreqs Dicts DictKeys IncludeDocValues Postings FreqNorms freqNormsBacking Locs locsBacking numTermsPerPostingsList numLocsPerPostingsList builder builderBuf metaBuf tmp0 tmp1 lastNumDocs lastOutSize normCalc
+//@
+//@ // ---- C15/C09: a decompressed block never aliases the compressed source (which, for
+//@ // memory-backed data, is the segment's own bytes): it lives in the caller's scratch buffer or in a
+//@ // freshly grown one, also for an empty source ----
+//@ func ZSTDDecompress
+//@   ensures[C06,C07,C09,C15] @result_never_aliases_the_source result1 == nil ==> arr(result0) == arr(dst) || fresh(result0)
+//@
+//@ // ---- C05: a stepped-over posting's has-locations flag is the low bit of its freq/has-locations
+//@ // value, decoded as a whole ----
+//@ ghostvar sfv int
+//@ func (*PostingsIterator).skipFreqNormReadHasLocs
+//@   at call:(*chunkedIntDecoder).readUvarint#0 ghostset sfv = result0
+//@   ensures[C05] @flag_is_the_low_bit result1 == nil && i.normBits1Hit == 0 ==> result0 == (sfv % 2 == 1)
+//@
+//@ // ---- C07: the chunk header cached by loadDvChunk has exactly as many entries as the chunk
+//@ // announces (no entries of a previously loaded, larger chunk behind them) ----
+//@ ghostvar dvn int
+//@ func (*docValueReader).loadDvChunk
+//@   at call:encoding/binary.Uvarint#0 ghostset dvn = result0
+//@   at loopexit#0 lemma[C07,C13] len(di.curChunkHeader) == dvn
+//@
+//@ // ---- C11/C04: Load keeps the footer exactly as parsed from the image (re-persisting a loaded
+//@ // segment reproduces the file byte for byte, footer words included) ----
+//@ func load
+//@   at call:(*Segment).loadDvReaders#0 lemma[C04,C11] footer.docValueOffset == be64(dbytes(data), dlen(data) - 20) && footer.fieldsIndexOffset == be64(dbytes(data), dlen(data) - 28) && footer.storedIndexOffset == be64(dbytes(data), dlen(data) - 36) && footer.numDocs == be64(dbytes(data), dlen(data) - 44) && footer.chunkMode == be32(dbytes(data), dlen(data) - 12) && footer.crc == be32(dbytes(data), dlen(data) - 4) && rv.footer == footer
+//@
+//@ // ---- C16: the fields section is written from the document-count map and the frequency map in
+//@ // that order, in the merger and in the builder ----
+//@ ghostvar pfd int
+//@ ghostvar pff int
+//@ func persistFields
+//@   ghostset pfd = old(fieldDocs)
+//@   ghostset pff = old(fieldFreqs)
+//@   ensures[C16] pfd == old(fieldDocs) && pff == old(fieldFreqs)
+//@ func mergeToWriter
+//@   at call:persistFields#0 lemma[C16] pfd == fieldDocs && pff == fieldFreqs
+//@ func (*interim).convert
+//@   at call:persistFields#0 lemma[C16] pfd == s.FieldDocs && pff == s.FieldFreqs
+//@
+//@ // ---- C04/C10: the stored chunk table is a run of uvarints: each entry is decoded right behind
+//@ // the previous one (the position advances by the encoded size of every entry read so far) ----
+//@ ghostvar lso int
+//@ func (*Segment).loadStoredFieldChunk
+//@   at call:encoding/binary.Uvarint#0 ghostset lso = offset + result1
+//@   loop 0 invariant[C04,C10] @entries_are_contiguous i > 0 ==> offset == lso
+//@
+//@ // ---- C06: a document's stored values are encoded by a walk over EVERY field id of the batch
+//@ // (ascending), so no stored field is left out whatever order the document lists its fields in ----
+//@ func (*interim).writeStoredFields
+//@   at loopexit#2 lemma[C06] fieldID == len(s.FieldsInv)
+//@   loop 2 invariant[C06] 0 <= fieldID && fieldID <= len(s.FieldsInv)
